@@ -1369,8 +1369,9 @@ class SMPose(SMUserList):
         =========   ==========   ====  ================================
 
         """
-        if isinstance(right, left.__class__):
-            # class by class
+        if type(right) == type(left):
+            # class by class (an SE3 is an instance of SO3, but the two do not
+            # combine: only the shapes of non-empty values told them apart)
             if len(left) == 1:
                 if len(right) == 1:
                     #print('== 1x1')
